@@ -289,19 +289,43 @@ def rule_key_equality(res, rid, m):
 
     if not ordered:
         eq = fb.fn(EP + "::operator==")
-        okc, why = _comparison_only(eq, set(names))
-        if not okc:
-            raise Broken("Endpoint::operator== is not comparison-only (%s)" % why)
-        dom = list(itertools.product(range(2), repeat=len(short)))
-        bad = [(a, b) for a in dom for b in dom if evalop(eq, a, b) != (a == b)]
-        res.check(not bad, rid, "Endpoint::operator==", eq.loc,
-                  "operator== holds iff every field (%s) is equal — all %d orderings evaluated" % (", ".join(short), len(dom) ** 2),
-                  "Endpoint::operator== does not separate endpoints: for fields %s = %s vs %s it answers %s" %
-                  (short, bad[0][0] if bad else "", bad[0][1] if bad else "", (not (bad[0][0] == bad[0][1])) if bad else ""))
+        # bit-level: the result must be true for identical operands and false as soon as one key bit differs
+        from cmpverif import g4
+        interp = g4.Interp(fb)
+        nbits = ep["size"] * 8
+        key_bits = []
+        for f in ep["fields"]:
+            key_bits += list(range(f["offset_bits"], f["offset_bits"] + f["size_bits"]))
+        pdecl = eq.params[0]["decl"]
+        try:
+            _, ret = interp.run(eq, ep["size"], {}, objs={pdecl: [g4.P("rhs", i) for i in range(nbits)]})
+        except g4.Unsupported as e:
+            raise Broken("Endpoint::operator== outside the G4 vocabulary: %s" % e)
+        if ret is None or ret.w != 1:
+            raise Broken("Endpoint::operator== does not return a boolean")
+        T = ret.bits[0]
+        same = {g4.P("rhs", i): g4.S(i) for i in range(nbits)}
+        refl = g4.subst(T, same)
+        missed = []
+        for kbit in key_bits:
+            env = dict(same)
+            env[g4.S(kbit)] = g4.C0
+            env[g4.P("rhs", kbit)] = g4.C1
+            v = g4.subst(T, env)
+            if v != g4.C0:
+                missed.append(kbit)
+        if refl != g4.C1 and not g4.is_const(refl):
+            raise Broken("Endpoint::operator== does not reduce to a constant on identical operands")
+        fname = {b: f["name"] for f in ep["fields"] for b in range(f["offset_bits"], f["offset_bits"] + f["size_bits"])}
+        res.check(refl == g4.C1 and not missed, rid, "Endpoint::operator==", eq.loc,
+                  "true on identical operands, false as soon as any of the %d key bits (%s) differs — decided per bit" % (len(key_bits), ", ".join(short)),
+                  "Endpoint::operator== does not separate endpoints: operands that differ only in bit %s of %s still compare equal (%d such bits)" %
+                  (missed[0] - ep["fields"][[f["name"] for f in ep["fields"]].index(fname[missed[0]])]["offset_bits"] if missed else "", fname.get(missed[0]) if missed else "", len(missed))
+                  if missed else "Endpoint::operator== is not reflexive")
         h = fb.fn(DEC + "::EndpointHash::operator()")
         rd = {d for d in reads(h.body) if "::" in d}
-        calls = facts.called_names(h.body)
-        res.check(rd <= set(names) and not calls, rid, "EndpointHash", h.loc, "hash is a function of key fields only (%s)" % sorted(x.split("::")[-1] for x in rd),
+        calls = {c for c in facts.called_names(h.body) if not c.startswith(EP + "::")}
+        res.check(rd <= set(names) and not calls, rid, "EndpointHash", h.loc, "hash is a function of the key only",
                   "EndpointHash reads %s / calls %s" % (sorted(rd - set(names)), sorted(calls)))
         return
     lt = fb.fn(EP + "::operator<")
@@ -862,4 +886,108 @@ def rule_output_sources(res, rid, m):
                     ok = True
                     why = "packet taken from the current key's entry"
             res.check(ok, rid, "push:%s" % (classify(p) or "?"), pb.get("loc"), why, "pushed packet: " + why)
+    return n
+
+
+def _linear(fn, e, syms, depth=4):
+    """Linear form {sym: coeff, 1: const} of integer expression e over the symbols
+    recognised by syms(node) -> name|None; None when not linear."""
+    e = strip_all_casts(e)
+    c = const_value(e)
+    if c is not None:
+        return {1: c}
+    s = syms(e)
+    if s:
+        return {s: 1, 1: 0}
+    if e.get("k") == "ref" and e.get("dk") == "local" and depth > 0:
+        ds = facts.local_defs(fn).get(e["decl"], [])
+        if len(ds) == 1:
+            return _linear(fn, ds[0], syms, depth - 1)
+        return None
+    if e.get("k") == "bin" and e.get("op") in ("+", "-"):
+        a, b = _linear(fn, e["l"], syms, depth), _linear(fn, e["r"], syms, depth)
+        if a is None or b is None:
+            return None
+        out = dict(a)
+        for k, v in b.items():
+            out[k] = out.get(k, 0) + (v if e["op"] == "+" else -v)
+        return out
+    return None
+
+
+def rule_reject_reasons(res, rid, m):
+    """C05-R7: closed world of rejections — every `return false` of addSegment is decided
+    by a protocol reason (version / message type / counter mismatch, declared length
+    exceeding the frame, invalid segment-type transition) or by a size limit that can
+    only reject messages whose reassembled payload exceeds 65535 bytes."""
+    f = m.addSegment
+    role = getattr(m, "roles", None)
+    if role is None:
+        raise Broken("rule_accept_guard must run first")
+    params = {p["decl"] for p in f.params}
+    sizep = [p["decl"] for p in f.params if p["t"]["s"] in ("const unsigned long", "unsigned long")]
+    GPL = MH + "::getPayloadLength"
+    n = 0
+    seen = set()
+    for p in paths.enumerate_paths(f):
+        r = p.returns()
+        if r is None or const_value(p.value_of(r["e"], before=r["id"])) != 0:
+            continue
+        if not p.atoms:
+            res.bad(rid, "reject:unconditional", r.get("loc"), "addSegment rejects unconditionally")
+            continue
+        a = p.atoms[-1]
+        key = None
+        why = None
+        if a[0] == "cmp":
+            dl, cl = depends(f, a[4])
+            dr, cr = depends(f, a[5])
+            for what in ("version", "message type", "counter"):
+                fld = role[what]
+                if a[2] == "!=" and ((fld in dl and dr & params) or (fld in dr and dl & params)):
+                    key = "reject:%s-mismatch" % what.replace(" ", "-")
+            if key is None and ((GPL in cl and set(sizep) & dr) or (GPL in cr and set(sizep) & dl)) and m.buffer not in (dl | dr):
+                key = "reject:length-exceeds-frame"
+            if key is None and m.buffer in (dl | dr):
+                # a limit on the reassembled size: linear form over buffer size and new payload length
+                def syms(x):
+                    if x.get("k") == "call" and (x.get("callee") or {}).get("nm") == "size" and strip_all_casts(x.get("obj", {})).get("field") == m.buffer:
+                        return "buf"
+                    if x.get("k") == "call" and callee_name(x) == GPL:
+                        return "new"
+                    return None
+                L, R = _linear(f, a[4], syms), _linear(f, a[5], syms)
+                if L is not None and R is not None:
+                    form = dict(L)
+                    for k2, v in R.items():
+                        form[k2] = form.get(k2, 0) - v
+                    op = a[2]
+                    if op in ("<", "<="):
+                        form = {k2: -v for k2, v in form.items()}
+                        op = {"<": ">", "<=": ">="}[op]
+                    # rejects when buf*a + new*b + c > 0 (or >= 0)
+                    hdr = m.fb.record(MH)["size"]
+                    if form.get("buf", 0) == 1 and form.get("new", 0) == 1 and op in (">", ">="):
+                        c = form.get(1, 0)
+                        # largest legal value of buf + new: header + 65535
+                        legal_max = hdr + 65535
+                        rejects_legal = (legal_max + c > 0) if op == ">" else (legal_max + c >= 0)
+                        key = "reject:size-limit"
+                        if rejects_legal:
+                            first_rejected = (-c + 1) if op == ">" else -c
+                            why = "the size limit rejects a continuation as soon as header + payload reaches %d bytes, i.e. reassembled payloads of %d..65535 " \
+                                  "bytes (legal: the length field is 16 bits) are dropped" % (first_rejected, first_rejected - hdr)
+        elif a[0] == "truth" and a[3].get("k") == "call" and callee_name(a[3]) == SEG + "::isValidSegmentType" and a[2] is False:
+            key = "reject:invalid-transition"
+        n += 1
+        if key is None:
+            k2 = "reject:unknown:%s" % (a[1][:50] if len(a) > 1 else "?")
+            if k2 not in seen:
+                seen.add(k2)
+                res.bad(rid, k2, r.get("loc"), "addSegment rejects a continuation when `%s %s %s`, which is none of the protocol's reasons (version, message type, "
+                        "counter, declared length vs frame, segment-type transition): well-formed messages can be dropped" %
+                        ((a[1], a[2], a[3]) if a[0] == "cmp" else (a[1], "is", a[2])))
+        elif key not in seen:
+            seen.add(key)
+            res.check(why is None, rid, key, r.get("loc"), "rejection decided by a protocol reason", why or "")
     return n
